@@ -138,6 +138,8 @@ def work_workers(chunk):
         # reduce: only the fields the mode reads vary fully, the rest takes two values
         if mode == "MW":
             alpha = [a for a in alpha if a[1] == 0 and a[2] in (None, 1)]
+            alpha += [(12, 0, a[2], a[3]) for a in alpha if a[0] == 1]  # a generalist whose skill points add up to far more than the others'
+
         elif mode == "SSP":
             alpha = [a for a in alpha if a[1] == 0 and a[3] in ("none", "equal-distinct")]
         elif mode == "VC":
